@@ -836,3 +836,84 @@ def b_ly_notes(tier, rnd):
     return {"rule": "Notes: names with <= 3 accidentals (all orderings) x octaves 0..9 x process_octaves x standalone",
             "cases": [(Note(n, o), p, s) for n in all_names(3) for o in range(10) for p in (True, False)
                       for s in (True, False)]}
+
+
+NUMS = ["I", "II", "III", "IV", "V", "VI", "VII"]
+
+
+@battery("numeral_int")
+def b_numeral_int(tier, rnd):
+    return {"rule": "7 numerals x skip counts -15..15", "cases": [(n, k) for n in NUMS for k in range(-15, 16)]}
+
+
+@battery("numeral_pairs_int")
+def b_numeral_pairs_int(tier, rnd):
+    return {"rule": "49 numeral pairs x intervals -3..14", "cases": [(a, b, i) for a in NUMS for b in NUMS for i in range(-3, 15)]}
+
+
+@battery("chord_lists")
+def b_chord_lists(tier, rnd):
+    ns = canon_names(1)
+    cases = []
+    for n in range(1, 8):
+        for _ in range(40):
+            cases.append(([rnd.choice(ns) for _ in range(n)],))
+    return {"rule": "seeded lists of 1..7 names (40 per length)", "cases": cases}
+
+
+@battery("bar_meter")
+def b_bar_meter(tier, rnd):
+    from mingus.containers.bar import Bar
+    return {"rule": "a Bar x meters (count 0..13) x beat units from the 'numbers' battery (ints only)",
+            "cases": [(Bar(), (c, u)) for c in range(0, 14) for u in NUMBERS if isinstance(u, int) and not isinstance(u, bool)]}
+
+
+@battery("bars_filled")
+def b_bars_filled(tier, rnd):
+    from mingus.containers.bar import Bar
+    out = []
+    for meter in ((4, 4), (3, 4), (6, 8), (2, 2), (5, 4), (0, 0), (12, 8)):
+        for v in (1, 2, 4, 8, 16, 3, 6, 12, 1.5, 5):
+            b = Bar("C", meter)
+            out.append((b,))
+            for _ in range(24):
+                if not b.place_notes("C", v):
+                    break
+                import copy
+                out.append((copy.deepcopy(b),))
+    return {"rule": "bars in 7 meters filled step by step with each of 10 values (every intermediate state)", "cases": out}
+
+
+@battery("tiny_chords")
+def b_tiny_chords(tier, rnd):
+    ns = all_names(1)
+    cases = [([], f, False, False) for f in (True, False)]
+    cases += [([a], f, False, False) for a in ns for f in (True, False)]
+    cases += [([a, b], f, False, False) for a in ns for b in ns for f in (True, False)]
+    return {"rule": "the empty chord, 21 single notes, 441 pairs x both forms", "cases": cases}
+
+
+@battery("nc_add")
+def b_nc_add(tier, rnd):
+    from mingus.containers.note import Note
+    from mingus.containers.note_container import NoteContainer
+    names = [n for n in all_names(1) if n not in ("Cb", "B#")]
+    starts = [[], ["C"], ["A"], ["C", "G"], ["E", "G"], [["C", 2], ["C", 6]]]
+    cases = []
+    for st in starts:
+        for n in names:
+            cases.append((NoteContainer(list(st)), n))
+            for o in (3, 4, 5):
+                cases.append((NoteContainer(list(st)), Note(n, o)))
+    return {"rule": "6 start containers (0..2 notes) x 19 names as bare names and as Note objects in octaves 3..5",
+            "cases": cases}
+
+
+@battery("instr_note")
+def b_instr_note(tier, rnd):
+    from mingus.containers.note import Note
+    from mingus.containers import instrument as I
+    instrs = [I.Instrument(), I.Piano(), I.Guitar(), I.MidiInstrument()]
+    return {"rule": "4 instruments x notes 0..127 + exotic spellings", "cases":
+            [(i, Note().from_int(k)) for i in instrs for k in range(0, 128)] +
+            [(i, Note(n, o)) for i in instrs for n in ("Cb", "B#", "E##") for o in (0, 3, 8)]}
